@@ -484,6 +484,45 @@ pub fn vary_member_names(m: &mut Model, rng: &mut Rng) {
     }
 }
 
+/// Names of Rust prelude items, primitive types and other words a generator might treat specially
+/// (`Box`, `Option`, `Some`, `Vec`, `Self_`, `Result`, `String` ...).  They are outside the precondition
+/// of the *compile* properties (C05/C06) but inside the domain of everything else (C04, C07, C10,
+/// C11, C14, C16, C17 quantify over all grammars): only for engines that do not compile the output.
+pub fn prelude_names(m: &mut Model, rng: &mut Rng) {
+    const POOL: &[&str] = &[
+        "Box", "Vec", "Option", "Some", "None", "Result", "Ok", "Err", "Iterator", "IntoIterator", "TryFrom", "TryInto", "String", "ToString", "Clone", "Copy", "Debug",
+        "Default", "Drop", "Fn", "From", "Into", "Send", "Sync", "Sized", "Eq", "Ord", "PartialEq", "PartialOrd", "Hash", "Usize", "Str", "Self_", "Crate", "Super", "Std", "Core",
+    ];
+    let n = m.nts.len() + m.terms.len();
+    if n > POOL.len() {
+        return;
+    }
+    let mut names: Vec<&str> = POOL.to_vec();
+    rng.shuffle(&mut names);
+    if names.iter().take(n).any(|x| *x == m.term_enum) {
+        return;
+    }
+    // all symbols, or only two or three of them
+    let only = if rng.chance(0.5) { usize::MAX } else { rng.range(2, 3) };
+    let off = m.nts.len();
+    for (i, nt) in m.nts.iter_mut().enumerate() {
+        if i < only {
+            nt.name = names[i].to_string();
+        }
+    }
+    for (i, t) in m.terms.iter_mut().enumerate() {
+        if i < only {
+            t.name = names[off + i].to_string();
+        }
+    }
+    if rng.chance(0.2) {
+        m.term_enum = names[n % names.len()].to_string();
+        if m.nts.iter().any(|x| x.name == m.term_enum) || m.terms.iter().any(|x| x.name == m.term_enum) {
+            m.term_enum = "Tok".to_string();
+        }
+    }
+}
+
 /// Give nonterminals and terminals names whose alphabetical order is unrelated to their
 /// declaration order (kiki sorts symbols, items and states by name).
 pub fn shuffle_names(m: &mut Model, rng: &mut Rng) {
